@@ -7,7 +7,7 @@ import (
 	peer "github.com/libp2p/go-libp2p-core/peer"
 )
 
-var vrfEntries = map[string]func(){"VrfC15Crdt": VrfC15Crdt, "VrfC15CrdtEnv": VrfC15CrdtEnv}
+var vrfEntries = map[string]func(){"VrfC15Crdt": VrfC15Crdt, "VrfC15CrdtEnv": VrfC15CrdtEnv, "VrfC15CrdtLoaded": VrfC15CrdtLoaded}
 
 // VrfC15CrdtEnv: settings supplied through environment variables (the nested
 // batching section included) on top of an arbitrary valid configuration. Empty
@@ -115,4 +115,36 @@ func VrfC15Crdt() {
 		vrf_assert(back.Validate() == nil, "C15.crdt.loaded-implies-valid")
 	}
 	vrf_reach("C15.crdt.end")
+}
+
+// VrfC15CrdtLoaded: whatever the loader accepts is a fixpoint of save -> load.
+// The trusted-peers list is the one setting the loader normalises (a "*" entry
+// anywhere means trust-all): every shape of that list - wildcard alone, peers
+// alone, peers before and after a wildcard, empty - loads to a configuration
+// that saving and loading again reproduces, and a second environment pass with
+// nothing set changes nothing.
+func VrfC15CrdtLoaded() {
+	lists := []string{`["*"]`, `[]`, `["` + vrfPeerStrs[0] + `"]`, `["` + vrfPeerStrs[0] + `","*"]`, `["*","` + vrfPeerStrs[0] + `"]`,
+		`["` + vrfPeerStrs[0] + `","*","` + vrfPeerStrs[1] + `"]`, `["` + vrfPeerStrs[0] + `","` + vrfPeerStrs[1] + `"]`}
+	doc := `{"cluster_name":"c","trusted_peers":` + lists[vrf_choice("trusted_peers", len(lists))] + `}`
+	first := &Config{}
+	vrf_assert(first.LoadJSON([]byte(doc)) == nil, "C15.crdt.loaded-accepts")
+	same := func(a, b *Config, label string) {
+		vrf_assert(a.TrustAll == b.TrustAll && len(a.TrustedPeers) == len(b.TrustedPeers), label)
+		for i := range a.TrustedPeers {
+			if i < len(b.TrustedPeers) {
+				vrf_assert(a.TrustedPeers[i] == b.TrustedPeers[i], label)
+			}
+		}
+	}
+	raw, err := first.ToJSON()
+	vrf_assert(err == nil, "C15.crdt.loaded-saves")
+	second := &Config{}
+	vrf_assert(second.LoadJSON(raw) == nil, "C15.crdt.loaded-reloads")
+	same(first, second, "C15.crdt.loaded-is-a-fixpoint")
+	third := *first
+	third.TrustedPeers = append([]peer.ID{}, first.TrustedPeers...)
+	vrf_assert(third.ApplyEnvVars() == nil, "C15.crdt.loaded-env-pass-ok")
+	same(first, &third, "C15.crdt.loaded-env-pass-changes-nothing")
+	vrf_reach("C15.crdt.loaded-end")
 }
